@@ -249,3 +249,49 @@ Definition c02_ectxr_pre (P : string) (rounds : list (list string)) (en : string
   | Some (outs, e1) => join "," (map bhex outs) ++ " " ++ used e0 e1
   | None => "ERR"
   end.
+
+(* ---------------- wave 5: key objects, print parsers, size queries, context reuse ---------------- *)
+Definition pt_str (P : point B) : string := z64 (get_x B P) ++ z64 (get_y B P).
+Definition c01_keygen (en : string) : string :=
+  let e0 := ent_of en in
+  match key_generate B e0 with
+  | Some (d, P, e1) => z64 d ++ " " ++ pt_str P ++ " " ++ used e0 e1
+  | None => "ERR"
+  end.
+Definition c01_setpriv (d : string) : string :=
+  match key_set_private B (hz d) with Some (_, P) => pt_str P | None => "ERR" end.
+Definition c01_fastkey (d : string) : string :=
+  match fast_key B (hz d) with Some f => z64 f | None => "ERR" end.
+Definition c01_pkdigest (P : string) : string :=
+  match public_key_digest B (pt_of P) with Some h => bhex h | None => "ERR" end.
+Definition c01_pkequ (P Q : string) : string := if public_key_equ B (pt_of P) (pt_of Q) then "1" else "0".
+Definition c01_sigprint (a : string) : string := ok (signature_print_ok (hx a)).
+Definition c02_ctprint (a : string) : string := ok (ciphertext_print_ok (hx a)).
+Definition optn (o : option N) : string := match o with Some v => cnt (N.to_nat v) | None => "ERR" end.
+Definition c02_equery (chunks : list string) : string := optn (encrypt_finish_query (map hx chunks)).
+Definition c02_dquery (chunks : list string) : string := optn (decrypt_finish_query (map hx chunks)).
+(* one SM2_DEC_CTX over several ciphertexts (round = updates, finish, reset); an error stops the run *)
+Fixpoint dctx_rounds (d : Z) (rounds : list (list string)) : option (list string) :=
+  match rounds with
+  | [] => Some []
+  | chunks :: rest =>
+    match decrypt_stream B d (map hx chunks) with
+    | None => None
+    | Some m => match dctx_rounds d rest with None => None | Some ms => Some (bhex m :: ms) end
+    end
+  end.
+Definition c02_dctxr (d : string) (rounds : list (list string)) : string :=
+  match dctx_rounds (hz d) rounds with Some ms => join "," ms | None => "ERR" end.
+(* verify context over several (message, signature) pairs with reset in between *)
+Fixpoint vctx_rounds (c : verify_ctx B) (rounds : list (list string * string)) : list string :=
+  match rounds with
+  | [] => []
+  | (chunks, sg) :: rest =>
+    let c1 := fold_left (verify_update B) (map hx chunks) c in
+    ok (verify_finish B c1 (hx sg)) :: vctx_rounds (verify_reset B c1) rest
+  end.
+Definition c01_vctxr (P : string) (id : option (string * nat)) (rounds : list (list string * string)) : string :=
+  match verify_init B (pt_of P) (id_of id) with
+  | IErr => "ERR" | IFault => "FAULT"
+  | IOk c => join "," (vctx_rounds c rounds)
+  end.
